@@ -38,6 +38,10 @@ type Engine struct {
 	unstable      map[*ssa.Global]string // globals written or address-taken outside init
 	reg           *regions
 	warnings      []string
+	fpCache       map[string]*footprint
+	gwCache       map[string]map[string]bool
+	reachCache    map[*ssa.Function]map[string]bool
+	addrTakenSet  map[*ssa.Function]bool
 }
 
 const goBin = "/root/go/pkg/mod/golang.org/toolchain@v0.0.1-go1.24.0.linux-amd64/bin"
